@@ -194,6 +194,26 @@ def cases(seed=0, thorough=False):
     a, b = nb(), nb()
     add("r = ds.Select(lambda e: (lambda a, b: a + b)({A}, 1)).Select(lambda f: {B})".format(A=body(a, "e"), B=body(b, "f")),
         ["lambda e: (lambda a, b: a + b)({A}, 1)".format(A=body(a, "e")), "lambda f: {B}".format(B=body(b, "f"))], False, "K4 nested lambda with two parameters")
+    # ---- the same lambda expression passed several times as different closures: every call records the lambda it was handed
+    a = nb()
+    add("""
+        def mk_{n}(k):
+            return ds.Select(lambda e: {A} + k)
+        r0 = mk_{n}(1)
+        r = mk_{n}(2)
+        """.format(n=a, A=body(a, "e")), ["lambda e: {A} + k".format(A=body(a, "e"))] * 2, False, "H1 one lambda expression, two closures (factory)")
+    out[-1]["truths"] = ["lambda e: {A} + {k}".format(A=body(a, "e"), k=k) for k in (1, 2)]
+    a = nb()
+    add("""
+        for k in (3, 4, 5):
+            r = ds.Where(lambda e: {A} > k)
+        """.format(A=body(a, "e")), ["lambda e: {A} > k".format(A=body(a, "e"))] * 3, False, "H1 one lambda expression, three closures (loop)")
+    out[-1]["truths"] = ["lambda e: {A} > {k}".format(A=body(a, "e"), k=k) for k in (3, 4, 5)]
+    a = nb()
+    add("""
+        rs = [ds.Select(lambda e: {A} * k) for k in (6, 7)]
+        """.format(A=body(a, "e")), ["lambda e: {A} * k".format(A=body(a, "e"))] * 2, False, "H1 one lambda expression, two closures (comprehension)")
+    out[-1]["truths"] = ["lambda e: {A} * {k}".format(A=body(a, "e"), k=k) for k in (6, 7)]
     # ---- combinatorial chains: number of calls x methods x argument names x line-break style
     ncombo = 400 if thorough else 90
     styles = ["oneline", "black", "breakopen", "mixed", "bodybreak", "nestedbreak"]
